@@ -85,7 +85,12 @@ func doLoad(set map[string]string) string {
 		names = append(names, n+"=ERR:"+e.Error())
 	}
 	sort.Strings(names)
-	return strings.Join(names, "\n")
+	out := strings.Join(names, "\n")
+	// what was loaded is what runs: the goroutine runs its own main.p on its own point
+	if m := ok["main.p"]; m != nil {
+		out += "\nRUN " + doRun(m, &job{Fields: map[string]string{"message": "s:\"hello 42\""}, Tags: map[string]string{}})
+	}
+	return out
 }
 
 // loadSets: script sets for concurrent loads: the same alias name bound differently, bound at top level, inside a
@@ -98,6 +103,12 @@ var loadSets = []map[string]string{
 	{"main.p": "use(\"b.p\")\nuse(\"c.p\")", "b.p": "use(\"c.p\")", "c.p": "add_key(c, \"s\\t\\u00e9\")"},
 	{"main.p": "use(\"b.p\")", "b.p": "use(\"main.p\")", "c.p": "x = = 1", "d.p": "nosuch()"},
 	{"main.p": "a = \"esc \\n \\t \\\\ \\\" \\x41 \\u00e9\"\nb = 'single \\' \\101'\nadd_key(k, a + b)"},
+	// the same caller text with three different callees of the same name
+	{"main.p": "use(\"lib.p\")\nprobe(\"m\", v)", "lib.p": "add_key(v, \"one\")"},
+	{"main.p": "use(\"lib.p\")\nprobe(\"m\", v)", "lib.p": "add_key(v, \"two\")\nprobe(\"lib\", 2)"},
+	{"main.p": "use(\"lib.p\")\nprobe(\"m\", v)", "lib.p": "add_key(v, 3)\nuse(\"deep.p\")", "deep.p": "add_key(d, true)"},
+	// a callee that fails the check with an error of three positions, used by several scripts
+	{"main.p": "use(\"u1.p\")", "bad.p": "add_key(n, len(load_json()))", "u1.p": "use(\"bad.p\")", "u2.p": "x = 1\nuse(\"bad.p\")", "u3.p": "if true {\n use(\"bad.p\")\n}", "u4.p": "use(\"u3.p\")"},
 }
 
 // literalTexts: sources whose string literals contain escape sequences (the parser decodes them).
